@@ -164,6 +164,7 @@ def run_case(seed, big=False):
             out['samples'].append(dict(desc, output_fields=genchk.expected_fields(c, gradp, reactions)))
         d = None if big else model_compare(model, c, gradp, reactions, floor, iimg, chkdir)
         count(f"whole conversion compared with Chk2pltTool.chk2plt_tool in one call={TOOL_CALLS[0] > 0}")
+        count(f"specification side (pf_disk (conv_pf c), goodb) compared={SPEC_CALLS[0] > 0}")
         if d:
             out['disagreements'].append(dict(desc, kind='model-vs-impl', what=d,
                                              correspondence='Writers.Chk2plt.convert_level vs chk2plt.convert'))
@@ -268,7 +269,60 @@ def header_diff(m, got, lo, hi):
     return None
 
 
+def spec_compare(model, c, chkdir, gradp, reactions, floor, tool_result):
+    """theorem C17_tool / C17_tool_output_good on this case: the abstract checkpoint (header record, ghosted state levels with
+    their layout, per box the components the ORACLE says the converted box holds) -> its directory must be the checkpoint on
+    disk, pf_disk (conv_pf c) must be the tool model's output, and conv_pf c must be good"""
+    toks = oracle.read_tokens(os.path.join(chkdir, 'Header'))
+    wholes, toints, frepr = float_tables(toks)
+    lo, hi, dxrows, bnds = header_oracles(c, toks)
+    levels = []
+    disk = []
+    for lv in range(c.nlevels):
+        lev = c.levels[lv]
+        fabs = []
+        for b, (blo, bhi) in enumerate(lev['boxes']):
+            flo, fhi = genchk.fab_index_range(c, 'state', blo, bhi)
+            arr = lev['data']['state'][b]
+            fabs.append([list(flo), list(fhi), arr.shape[-1], np.asarray(arr, dtype='<f8').tobytes(order='F')])
+        files = [[name.encode(), list(members)] for name, members in lev['files']['state']]
+        subs = {}
+        for sub in ('state', 'gradp', 'I_R'):
+            f_, loc = genchk.level_subset_files(c, lv, sub)
+            subs[sub] = ([[n.encode(), content] for n, content in f_.items()], [[n.encode(), off] for n, off in loc])
+        comps = []
+        for b in range(len(lev['boxes'])):
+            want = genchk.expected_box(c, lv, b, gradp, reactions, floor)
+            comps.append([np.asarray(want[..., k], dtype='<f8').tobytes(order='F') for k in range(want.shape[-1])])
+        levels.append([[fabs, files], subs['gradp'][0], subs['gradp'][1], subs['I_R'][0], subs['I_R'][1], comps])
+        disk.append(subs['state'])
+    st, m = model.call('chk2plt_spec', [toks, wholes, toints, frepr, dxrows, bnds, [s_.encode() for s_ in c.species],
+                                        1 if gradp else 0, 1 if reactions else 0, levels])
+    if st != 'ok':
+        return 'the specification entry refuses the abstract checkpoint'
+    printed, sdisk, spec_pd, good = m
+    if [list(l) for l in printed] != [list(l) for l in toks]:
+        return 'print_chk of the parsed checkpoint header is not the Header on disk'
+    for lv, ((sfiles, scells), (gfiles, gcells)) in enumerate(zip(sdisk, disk)):
+        if sorted((bytes(n), bytes(x)) for n, x in sfiles) != sorted((bytes(n), bytes(x)) for n, x in gfiles) or \
+                [(bytes(n), o) for n, o in scells] != [(bytes(n), o) for n, o in gcells]:
+            return f'level {lv}: the directory of the abstract state level (Level.lv_disk / lv_cells) is not the state subset on disk'
+    if spec_pd != tool_result:
+        sh, sd = spec_pd
+        th, td = tool_result
+        where = 'Header' if sh != th else next((n for (n, _, _), (n2, a2, b2) in zip(sd, td) if True), '?')
+        for (n, ch, fl), (n2, ch2, fl2) in zip(sd, td):
+            if (n, ch, fl) != (n2, ch2, fl2):
+                where = n.decode() + (' level header' if ch != ch2 else ' binary files')
+                break
+        return f'theorem C17_tool instance: pf_disk (conv_pf c) differs from chk2plt_tool (achk_disk c) in {where}'
+    if good != 1:
+        return 'conv_pf c is not good (goodb = false): the instance of C17_tool_output_good is not covered'
+    return None
+
+
 TOOL_CALLS = [0]
+SPEC_CALLS = [0]
 
 
 def model_compare(model, c, gradp, reactions, floor, iimg, chkdir=None):
@@ -312,6 +366,10 @@ def model_compare(model, c, gradp, reactions, floor, iimg, chkdir=None):
             return f"level directories {sorted(iimg['dirs'])} vs model {[n.decode() for n, _, _ in mdirs]}"
         results = [(lv, mdirs[lv][1], mdirs[lv][2]) for lv in range(c.nlevels)]
         TOOL_CALLS[0] += 1
+        d = spec_compare(model, c, chkdir, gradp, reactions, floor, m)
+        SPEC_CALLS[0] += 1
+        if d:
+            return d
     else:
         results = []
         for lv, (subs, floored, boxes, small) in enumerate(reqs):
@@ -374,6 +432,10 @@ def run(tier, seed):
     rep.obligation('correspondence: Chk2pltTool.chk2plt_tool (the whole conversion in one call: Header + every level directory) = the directory chk2plt '
                    'wrote, on every checkpoint whose levels are small enough for the list-based model',
                    not any(v[0].get('kind') in ('model-vs-impl', 'model-vs-impl-header') for v in rep.violations))
+    rep.obligation("theorem instances C17_tool / C17_tool_output_good: pf_disk (conv_pf c) = chk2plt_tool (achk_disk c), achk_disk c = the checkpoint "
+                   "on disk, goodb (conv_pf c) = true, with the oracle's expected boxes as the components of the converted boxes",
+                   not any(v[0].get('kind') == 'model-vs-impl' and 'C17_tool' in str(v[0].get('what')) or 'abstract' in str(v[0].get('what'))
+                           for v in rep.violations))
     rep.obligation('correspondence: Writers.ChkHeader.write_global_header = the Header chk2plt writes (every token; floating-point tokens up to rounding)',
                    not any(v[0].get('kind') == 'model-vs-impl-header' for v in rep.violations))
     return rep.finish(
